@@ -23,7 +23,7 @@ results=""
 if [ "$res_apply" = ok ] && [ "$suite" = ok ]; then
   git -C /repo apply $OUT/patch.diff || { echo "cannot apply to /repo"; exit 2; }
   for p in $PROPS; do
-    (cd ${VERIF_HOME:-/verif} && VERIF_BUDGET_S=${MUT_BUDGET_S:-10} ./check $p quick > $OUT/check_$p.log 2>&1); rc=$?
+    (cd ${VERIF_HOME:-/verif} && VERIF_BUDGET_S=${BN_BUDGET_S:-${MUT_BUDGET_S:-10}} ./check $p quick > $OUT/check_$p.log 2>&1); rc=$?
     v=$(grep -c '^VIOLATION' $OUT/check_$p.log)
     first=$(grep -m1 '^  C' $OUT/check_$p.log | cut -c1-260)
     [ $rc -ne 0 ] && echo "check $p: exit=$rc violations=$v $first" && tail -3 $OUT/check_$p.log | cut -c1-300
